@@ -25,7 +25,7 @@ META = {
     "note": "Trusted: Lean kernel + {propext, Classical.choice, Quot.sound}; Spec/NpArray (numpy searchsorted, "
     "int indexing, tuple slicing, copyto of equal-length slices) validated against numpy each run; numpy "
     "casting / dtype promotion not modelled; int32 offsets: theorems assume sum(chunks) < 2^31 (wrap is modelled "
-    "and compared); float(N)/n in Tiles.__init__ modelled as exact ceil division (exact for N < 2^53, sampled); "
+    "and compared); "
     "squeezing of int-indexed extra axes in BlockAssembler and _verify_shape are not modelled.",
     "technique": "Lean 4 proof over hand model + exhaustive/random differential correspondence with real code",
     "design_ref": "DESIGN.md §4 C04",
@@ -134,6 +134,15 @@ def spec_validation(R: Run):
 
 # ------------------------------------------------------------------ regular tiles
 def check_axis_partition(R: Run, tag, case, T, N, get, shape, chunks, locate):
+    """guarded wrapper: an unexpected exception of the real code is an oracle failure, not a harness crash"""
+    try:
+        return _check_axis_partition(R, tag, case, T, N, get, shape, chunks, locate)
+    except Exception as e:  # pylint: disable=broad-except
+        R.oracle(False, f"{tag}-raises", case, f"unexpected {e!r}")
+        return [(None, None)] * max(T, 0)
+
+
+def _check_axis_partition(R: Run, tag, case, T, N, get, shape, chunks, locate):
     """Model-independent statement of the 1-D part of the property on real outputs.
     get(i) -> (a, b); shape(i) -> int; chunks() -> list; locate(y) -> int (all may raise)."""
     owner = [None] * max(N, 0)
@@ -219,7 +228,7 @@ def regular_case(R: Run, Rm, N, n, axis, full=True):
         chunks=lambda: list(ax.pick(t.chunks)),
         locate=lambda y: ax.pick(t.locate(ax.ix(y))),
     )
-    if not full:
+    if not full or any(r[0] is None for r in regs):
         return
     # crops
     bnds = [None] + list(range(-T - 1, T + 3))
@@ -255,11 +264,11 @@ def regular_case(R: Run, Rm, N, n, axis, full=True):
             c, roi, new = res[0]
             for s_old, p in zip(sel, new):
                 s_new = ax.pick(p)
-                r_new = ax.pick(c[ax.ix(s_new)])
                 r_old = regs[s_old]
                 off = regs[min(sel)][0]
-                R.oracle((r_new.start + off, r_new.stop + off) == r_old, "tiles-clip-not-rebased",
-                         dict(case, sel=sel), f"tile {s_old}->{s_new}: {r_new} + {off} != {r_old}")
+                got = guarded(lambda: (lambda r: str((r.start + off, r.stop + off)))(ax.pick(c[ax.ix(s_new)])))
+                R.oracle(got == str(r_old), "tiles-clip-not-rebased",
+                         dict(case, sel=sel), f"tile {s_old}->{s_new}: region in clipped tiling + {off} = {got} != {r_old}")
 
 
 def oracle_crop(R, tag, case, ax, c, regs, a, b):
@@ -269,7 +278,10 @@ def oracle_crop(R, tag, case, ax, c, regs, a, b):
     Tc = int(ax.pick(c.shape.yx))
     got = []
     if Tc == b - a:
-        got = [(lambda s: (s.start, s.stop))(ax.pick(c[ax.ix(k)])) for k in range(Tc)]
+        try:
+            got = [(lambda s: (s.start, s.stop))(ax.pick(c[ax.ix(k)])) for k in range(Tc)]
+        except Exception as e:  # pylint: disable=broad-except
+            got = [repr(e)]
     R.oracle(got == want and int(ax.pick(c.base.yx)) == regs[b - 1][1] - off, f"{tag}-crop-not-tiling-of-crop", case,
              f"crop tiles {got} base {ax.pick(c.base.yx)}; want {want}")
 
@@ -324,7 +336,7 @@ def variable_case(R: Run, Rm, ch, axis, full=True):
                 i = ax.pick(t.locate(ax.ix(y)))
                 R.oracle(cum[i] <= y < cum[i + 1], "vtiles-locate-not-inverse", dict(case, y=y), f"locate={i}")
         regs = list(zip(cum[:-1], cum[1:]))
-    if not full:
+    if not full or any(r[0] is None for r in regs):
         return
     bnds = [None] + list(range(-T - 2, T + 3))
     for a in bnds:
@@ -357,9 +369,9 @@ def variable_case(R: Run, Rm, ch, axis, full=True):
             c, roi, new = res[0]
             off = regs[min(sel)][0]
             for s_old, p in zip(sel, new):
-                r_new = ax.pick(c[ax.ix(ax.pick(p))])
-                R.oracle((r_new.start + off, r_new.stop + off) == regs[s_old], "vtiles-clip-not-rebased",
-                         dict(case, sel=sel), f"tile {s_old}: {r_new} + {off} != {regs[s_old]}")
+                got = guarded(lambda: (lambda r: str((r.start + off, r.stop + off)))(ax.pick(c[ax.ix(ax.pick(p))])))
+                R.oracle(got == str(regs[s_old]), "vtiles-clip-not-rebased",
+                         dict(case, sel=sel), f"tile {s_old}: region in clipped tiling + {off} = {got} != {regs[s_old]}")
 
 
 # ------------------------------------------------------------------ 2-D lift and GeoboxTiles
@@ -619,24 +631,90 @@ def _extra_win(rng, n, bad):
 
 
 # ------------------------------------------------------------------ entry points
-def float_stream(R: Run, Rm):
-    """Tiles.__init__ divides in doubles: sample large sizes, judge with exact integers."""
+def huge_stream(R: Run, Rm):
+    """Tiles.__init__ used to divide in doubles (`int(math.ceil(float(N) / n))`): sizes around and far beyond
+    2**53, judged with exact integers and compared with the model (exact ceil division)."""
     rng = R.rng
-    for _ in range(R.pick(2000, 20000)):
-        N = rng.randint(1, 2 ** rng.randint(8, 52))
-        n = rng.choice([1, 2, 3, 7, 256, 512, 1000, rng.randint(1, max(1, N)), max(1, N - 1), N, N + 1])
-        t = Rm.Tiles((N, 1), (n, 1))
-        T = t.shape.y
-        ok = T == -((-N) // n)
-        R.oracle(ok, "tiles-count-not-ceil", {"kind": "Tiles", "N": N, "n": n, "axis": 0}, f"shape {T} want {-((-N) // n)}")
-        if ok:
-            last = t[T - 1, 0][0]
-            R.oracle(last.stop == N and 0 < last.stop - last.start <= n and last.start == (T - 1) * n
-                     and t.tile_shape((T - 1, 0)).y == N - (T - 1) * n and t.locate((N - 1, 0))[0] == T - 1,
-                     "tiles-last-tile-large", {"kind": "Tiles", "N": N, "n": n, "axis": 0}, f"{last}")
-            R.corr(f"c04 t get {N} {n} {enc(-1)}", lambda: ns(t[-1, 0][0]), sig="t-get|large")
-            y = rng.randint(0, N - 1)
-            R.corr(f"c04 t locate {N} {n} {y}", lambda: str(t.locate((y, 0))[0]), sig="t-locate|large")
+    anchors = [2**31, 2**32, 2**52, 2**53, 2**53 + 2, 2**62, 2**63, 2**64, 2**100, 10**18 + 9, 3 * 2**60 + 1]
+    for it in range(R.pick(1500, 15000)):
+        r = rng.random()
+        if r < 0.35:
+            N = rng.randint(1, 2 ** rng.randint(8, 52))
+        elif r < 0.8:
+            N = rng.choice(anchors) + rng.randint(-3, 3)
+        else:
+            N = rng.randint(2**53, 2**120)
+        n = rng.choice([1, 2, 3, 7, 256, 512, 1000, 2**31, 2**53 + 1, rng.randint(1, max(1, N)), max(1, N - 1), N, N + 1,
+                        max(1, N // 2), max(1, N // 2 + 1), max(1, N // 3)])
+        axis = it % 2
+        want = -((-N) // n)
+        case = {"kind": "Tiles", "N": N, "n": n, "axis": axis}
+        try:
+            ax = Ax(Rm, "r", (N, n), axis)
+            t = ax.t
+            T = int(ax.pick(t.shape.yx))
+        except Exception as e:  # pylint: disable=broad-except
+            R.oracle(False, "tiles-raises", case, repr(e))
+            continue
+        R.corr(f"c04 t count {N} {n}", lambda: str(T), sig="t-count|huge" if N >= 2**53 else "t-count|large")
+        ok = R.oracle(T == want, "tiles-count-not-ceil", case, f"shape {T} want {want}")
+        if not ok:
+            continue
+        for i in (-1, T - 1, 0, T, -T, -T - 1, rng.randint(0, T - 1)):
+            R.corr(f"c04 t get {N} {n} {enc(i)}", lambda: ns(ax.pick(t[ax.ix(i)])), sig="t-get|huge")
+            R.corr(f"c04 t shape {N} {n} {i}", lambda: str(ax.pick(t.tile_shape(ax.ix(i)).yx)), sig="t-shape|huge")
+        for y in (0, N - 1, N, rng.randint(0, N - 1), (T - 1) * n, max(0, (T - 1) * n - 1)):
+            R.corr(f"c04 t locate {N} {n} {y}", lambda: str(ax.pick(t.locate(ax.ix(y)))), sig="t-locate|huge")
+        last = guarded(lambda: ns(ax.pick(t[ax.ix(T - 1)])))
+        R.oracle(last == f"{(T - 1) * n}:{N}" and guarded(lambda: str(ax.pick(t.tile_shape(ax.ix(-1)).yx))) == str(N - (T - 1) * n)
+                 and guarded(lambda: str(ax.pick(t.locate(ax.ix(N - 1))))) == str(T - 1),
+                 "tiles-last-tile-large", case, f"last tile {last}")
+        y = rng.randint(0, N - 1)
+        R.oracle(guarded(lambda: str(ax.pick(t.locate(ax.ix(y))))) == str(y // n), "tiles-locate-not-inverse", dict(case, y=y),
+                 "locate of a huge pixel")
+        if it % 10 == 0 and T < 2000:
+            R.corr(f"c04 t chunks {N} {n}", lambda: ints(ax.pick(t.chunks)), sig="t-chunks|huge")
+
+
+def int32_edge_stream(R: Run, Rm):
+    """VariableSizedTiles keeps int32 offsets: chunk tuples whose sum is just below 2**31."""
+    rng = R.rng
+    M = 2**31 - 1
+    tuples = [(M,), (2**30, 2**30 - 1), (1, M - 1), (M - 1, 1), (2**30 - 1, 1, 2**30 - 1), (0, M), (M, 0),
+              (2**29,) * 3 + (2**29 - 1,), (7, 0, M - 7)]
+    for _ in range(R.pick(10, 100)):
+        k = rng.randint(2, 6)
+        cuts = sorted(rng.randint(0, M) for _ in range(k - 1))
+        tuples.append(tuple(b - a for a, b in zip([0] + cuts, cuts + [M - rng.randint(0, 2)])))
+    for ch in tuples:
+        if sum(ch) > M or min(ch) < 0:
+            continue
+        for axis in (0, 1):
+            ax = Ax(Rm, "v", ch, axis)
+            t = ax.t
+            T, N = len(ch), sum(ch)
+            L = ints(ch)
+            cum = [0]
+            for c in ch:
+                cum.append(cum[-1] + c)
+            R.corr(f"c04 v info {L}",
+                   lambda: f"{ax.pick(t.shape.yx)} {ax.pick(t.base.yx)} {ints(ax.pick(t.chunks))} {ints(t._offsets[axis].tolist())}",
+                   sig="v-info|int32-edge")
+            case = {"kind": "VariableSizedTiles", "chunks": list(ch), "axis": axis}
+            R.oracle(guarded(lambda: str(int(ax.pick(t.base.yx)))) == str(N), "vtiles-base-ne-sum", case, "")
+            for i in range(-T - 1, T + 1):
+                R.corr(f"c04 v get {L} {enc(i)}", lambda: ns(ax.pick(t[ax.ix(i)])), sig="v-get|int32-edge")
+                R.corr(f"c04 v shape {L} {i}", lambda: str(ax.pick(t.tile_shape(ax.ix(i)).yx)), sig="v-shape|int32-edge")
+            ys = {0, N - 1, N, N + 1, 2**31, 2**31 - 1, 2**32 + 5, -1}
+            for c in cum:
+                ys |= {c - 1, c, c + 1}
+            for y in sorted(ys):
+                got = R.corr(f"c04 v locate {L} {y}", lambda: str(ax.pick(t.locate(ax.ix(y)))), sig="v-locate|int32-edge")
+                if 0 <= y < N:
+                    want = max(i for i in range(T) if cum[i] <= y and cum[i + 1] > y)
+                    R.oracle(got == str(want), "vtiles-locate-not-inverse", dict(case, y=y), f"locate={got} want {want}")
+                else:
+                    R.oracle(got == "ERR:IndexError", "vtiles-locate-out-of-range", dict(case, y=y), f"locate={got}")
 
 
 def run(R: Run):
@@ -680,13 +758,13 @@ def run(R: Run):
 
     lift_and_geobox(R, Rm, GeoBox, GeoboxTiles)
     assembler(R, BlockAssembler)
-    float_stream(R, Rm)
+    huge_stream(R, Rm)
+    int32_edge_stream(R, Rm)
 
     R.searchers.append(search_harder)
     R.exhaustive = False
     R.assumptions.append("Spec/NpArray (numpy searchsorted / int indexing / tuple slicing / copyto between equal-length "
                          "slices) is validated against numpy on every run")
-    R.assumptions.append("float(N)/n in Tiles.__init__ is exact ceil division for N < 2^53 (sampled by the float stream)")
     R.assumptions.append("sum(chunks) < 2^31 for VariableSizedTiles (int32 offsets); wrap-around itself is modelled and compared")
 
 
